@@ -29,6 +29,7 @@ func init() {
 
 func runC16(c *an.Ctx) {
 	p := c.P
+	ruleI5(c)
 	corePath := an.ModPath + pkgCore
 	synPath := an.ModPath + pkgSyntax
 	entryNames := []string{"BuildCallAst", "convertToExp", "BuildDataForAst", "(*InvocationData).BuildCallAst", "(*Fork).writeInvocation", "fixExpressionTypes", "InvocationDataFromSource"}
